@@ -23,6 +23,12 @@ theorem Elem.node_shift (el : Elem) (k a : Nat) :
       omega
     have e2 : a + o.txt.length + g2.length + k = a + k + o.txt.length + g2.length := by omega
     simp only [Elem.node, Node.mapPos, Node.mapPosO, Node.mapPosL, sh, e1, e2]
+  | nredir n o g2 w =>
+    have e1 : a + n.length + o.txt.length + g2.length + w.length + k =
+        a + k + n.length + o.txt.length + g2.length + w.length := by omega
+    have e2 : a + n.length + o.txt.length + g2.length + k = a + k + n.length + o.txt.length + g2.length := by
+      omega
+    simp only [Elem.node, Node.mapPos, Node.mapPosO, Node.mapPosL, sh, e1, e2]
 
 theorem nodesJ_shift (k : Nat) : ∀ (items : List (Str × Elem)) (off : Nat),
     Node.mapPosL (sh k) (nodesJ off items) = nodesJ (off + k) items
@@ -38,7 +44,7 @@ theorem GCmd.node_shift (c : GCmd) (k off : Nat) : (c.node off).shift k = c.node
   have e1 : off + c.lead.length + c.first.text.length + k =
       off + k + c.lead.length + c.first.text.length := by omega
   have e2 : off + c.lead.length + k = off + k + c.lead.length := by omega
-  simp only [Node.shift, GCmd.node, GCmd.nodes, Node.mapPos, Node.mapPosL, Item.node_shift, ih, e1, e2,
+  simp only [Node.shift, GCmd.node, GCmd.nodes, Node.mapPos, Node.mapPosL, Elem.node_shift, ih, e1, e2,
     GCmd.endPos_shift, sh]
 
 theorem gprestNodes_shift (k : Nat) : ∀ (cs : List GCmd) (a : Nat),
